@@ -443,7 +443,10 @@ def concrete_case(rng):
         try:
             for (p_, q_), wgt in G.items():
                 t = wgt * float(np.dot(s.pvals[id(p_)], s.pvals[id(q_)]))
-                val += t; mag += abs(t)
+                val += t
+                # size of what is summed, cancellation inside the inner product included (an orthogonality <g, d> = 0 is a sum of
+                # products of the size of |g| |d|, and the real line search is exact only up to its own stopping rule)
+                mag += abs(wgt) * float(np.dot(np.abs(s.pvals[id(p_)]), np.abs(s.pvals[id(q_)])))
             for e_, wgt in F_.items():
                 t = wgt * s.evals[id(e_)]
                 val += t; mag += abs(t)
